@@ -13,9 +13,22 @@
 //! order, both date systems, numbers in every encoding the writers offer (xlsx n / cached formula value; xlsb Real,
 //! RK float, RK int, FmlaNum; xls NUMBER, RK float, RK int, MULRK, FORMULA); each cell read back must be a DateTime of
 //! the right flavour with the value and the date system unchanged exactly when the XF's format is a date format.
+#[cfg(feature = "hooks")]
 use calamine::verif_hooks::formats::{
     builtin_format_by_code, builtin_format_by_id, detect_custom_number_format, format_excel_f64, format_excel_i64, CellFormat,
 };
+/// built WITHOUT the `hooks` feature (the `verif-hooks` feature of calamine does not compile on this tree): the
+/// private functions are reached through the public API instead — tiny generated workbooks around the format string /
+/// the format id — and the stages that have no such route are skipped (see `NO_HOOKS_NOTE`).
+#[cfg(not(feature = "hooks"))]
+#[derive(Clone, Copy, Debug, PartialEq)]
+enum CellFormat {
+    Other,
+    DateTime,
+    TimeDelta,
+}
+#[cfg(not(feature = "hooks"))]
+const NO_HOOKS_NOTE: &str = "built without verif-hooks: detect_custom_number_format is driven through generated xlsx workbooks (one custom format per XF, batches of 2000; sweep capped at length 5), builtin_format_by_code through one xls workbook with 65536 XF records, builtin_format_by_id through one xlsx workbook with 65536 cell XFs (plain decimal ids only: the spelling variants are skipped), the style tables are read off one numeric cell per XF instead of the hooks; skipped: format_excel_f64/i64 on random bit patterns (stage 5), parse_xf / parse_format on noise payloads";
 use calamine::Data;
 use calamine::Reader as _;
 use std::sync::atomic::{AtomicUsize, Ordering};
@@ -325,6 +338,7 @@ fn parse_format(text: &str) -> Option<Fmt> {
 // the implementation under test, canonicalised
 // ------------------------------------------------------------------------------------------------
 
+#[cfg_attr(not(feature = "hooks"), allow(dead_code))]
 fn tag(f: CellFormat) -> &'static str {
     match f {
         CellFormat::Other => "Other",
@@ -340,14 +354,136 @@ fn letter(t: &str) -> u8 {
         _ => b'P',
     }
 }
+#[cfg(feature = "hooks")]
 fn impl_detect(s: &str) -> &'static str {
     guarded(|| tag(detect_custom_number_format(s))).unwrap_or("panic")
 }
+#[cfg(feature = "hooks")]
 fn impl_bycode(n: u16) -> &'static str {
     guarded(|| tag(builtin_format_by_code(n))).unwrap_or("panic")
 }
+#[cfg(feature = "hooks")]
 fn impl_byid(b: &[u8]) -> &'static str {
     guarded(|| tag(builtin_format_by_id(b))).unwrap_or("panic")
+}
+
+// ---- the same three functions through the public API (no hooks)
+
+/// class of a numeric cell as read
+#[cfg(not(feature = "hooks"))]
+fn data_class(d: Option<&Data>) -> &'static str {
+    match d {
+        Some(Data::DateTime(dt)) if dt.is_duration() => "TimeDelta",
+        Some(Data::DateTime(_)) => "DateTime",
+        Some(Data::Float(_)) | Some(Data::Int(_)) => "Other",
+        _ => "?",
+    }
+}
+/// the classes of the custom formats `strs`: one xlsx workbook, format `i` is numFmt 164+i used by cell XF i+1, and
+/// one number per XF; `None` = the workbook could not be read (a panic or an error somewhere in the batch)
+#[cfg(not(feature = "hooks"))]
+fn detect_via_xlsx(strs: &[String]) -> Option<Vec<&'static str>> {
+    use verif_harness::xlsxw;
+    let mut book = xlsxw::XlsxBook::new();
+    book.num_fmts = strs.iter().enumerate().map(|(i, s)| (164 + i as u32, s.clone())).collect();
+    book.cell_xfs = std::iter::once(0u32).chain((0..strs.len()).map(|i| 164 + i as u32)).collect();
+    let mut sh = xlsxw::XlsxSheet::new("S");
+    for i in 0..strs.len() {
+        sh.set(i as u32, 0, xlsxw::XCell::num("1.5").with_style(i as u32 + 1));
+    }
+    book.sheets.push(sh);
+    let mut l = xlsxw::Layout::plain();
+    l.compression = xlsxw::Compression::Stored;
+    let bytes = book.build(&l).bytes;
+    let r = guarded(|| calamine::Xlsx::new(std::io::Cursor::new(bytes)).ok().and_then(|mut wb| wb.worksheet_range("S").ok()));
+    match r {
+        Ok(Some(range)) => {
+            let v: Vec<&'static str> = (0..strs.len()).map(|i| data_class(range.get_value((i as u32, 0)))).collect();
+            if v.iter().any(|c| *c == "?") {
+                None
+            } else {
+                Some(v)
+            }
+        }
+        _ => None,
+    }
+}
+#[cfg(not(feature = "hooks"))]
+fn impl_detect_many(strs: &[String]) -> Vec<&'static str> {
+    match detect_via_xlsx(strs) {
+        Some(v) => v,
+        None if strs.len() > 1 => strs.iter().map(|s| impl_detect(s)).collect(),
+        None => vec!["panic"],
+    }
+}
+#[cfg(not(feature = "hooks"))]
+fn impl_detect(s: &str) -> &'static str {
+    // characters XML cannot carry never reach the scanner through a file
+    if s.chars().any(|c| (c as u32) < 0x20 || c == '\u{FFFE}' || c == '\u{FFFF}') {
+        return "unrepresentable";
+    }
+    match detect_via_xlsx(&[s.to_string()]) {
+        Some(v) => v[0],
+        None => "panic",
+    }
+}
+/// `builtin_format_by_code`, all 65536 codes at once: an xls workbook whose XF `n` has ifmt `n` and no FORMAT record
+#[cfg(not(feature = "hooks"))]
+fn bycode_table() -> &'static Vec<&'static str> {
+    use std::sync::OnceLock;
+    use verif_harness::xlsw;
+    static T: OnceLock<Vec<&'static str>> = OnceLock::new();
+    T.get_or_init(|| {
+        let mut book = xlsw::XlsBook::new();
+        book.xfs = (0..=65535u16).collect();
+        let mut sh = xlsw::XlsSheet::new("S");
+        for n in 0..=65535u16 {
+            let mut c = xlsw::XlsCell::new(n, 0, xlsw::CellV::Number(1.5));
+            c.xf = n;
+            sh.cells.push(c);
+        }
+        book.sheets.push(sh);
+        let bytes = book.to_bytes_plain(&mut Rng::new(1));
+        let r = guarded(|| calamine::Xls::new(std::io::Cursor::new(bytes)).ok().and_then(|mut wb| wb.worksheet_range("S").ok()));
+        match r {
+            Ok(Some(range)) => (0..65536u32).map(|n| data_class(range.get_value((n, 0)))).collect(),
+            _ => vec!["panic"; 65536],
+        }
+    })
+}
+#[cfg(not(feature = "hooks"))]
+fn impl_bycode(n: u16) -> &'static str {
+    bycode_table()[n as usize]
+}
+/// `builtin_format_by_id` on the decimal text of every id: an xlsx workbook whose cell XF `n` has numFmtId="n"
+#[cfg(not(feature = "hooks"))]
+fn byid_table() -> &'static Vec<&'static str> {
+    use std::sync::OnceLock;
+    use verif_harness::xlsxw;
+    static T: OnceLock<Vec<&'static str>> = OnceLock::new();
+    T.get_or_init(|| {
+        let mut book = xlsxw::XlsxBook::new();
+        book.cell_xfs = (0..65536u32).collect();
+        let mut sh = xlsxw::XlsxSheet::new("S");
+        for n in 0..65536u32 {
+            sh.set(n, 0, xlsxw::XCell::num("1.5").with_style(n));
+        }
+        book.sheets.push(sh);
+        let bytes = book.build(&xlsxw::Layout::plain()).bytes;
+        let r = guarded(|| calamine::Xlsx::new(std::io::Cursor::new(bytes)).ok().and_then(|mut wb| wb.worksheet_range("S").ok()));
+        match r {
+            Ok(Some(range)) => (0..65536u32).map(|n| data_class(range.get_value((n, 0)))).collect(),
+            _ => vec!["panic"; 65536],
+        }
+    })
+}
+/// only the plain decimal spelling of a 16-bit id can be asked through a file; anything else is "skip"
+#[cfg(not(feature = "hooks"))]
+fn impl_byid(b: &[u8]) -> &'static str {
+    match std::str::from_utf8(b).ok().and_then(|t| t.parse::<u32>().ok().filter(|n| n.to_string() == t && *n < 65536)) {
+        Some(n) => byid_table()[n as usize],
+        None => "skip",
+    }
 }
 fn documented_class(id: u32) -> &'static str {
     match id {
@@ -521,6 +657,9 @@ fn check_gram(f: &Fmt, drv: &mut Driver, out: &mut Out, shrink: bool) -> bool {
         out.fail("model_vs_spec", "spec:wf", &input, "", m_wf, if wf { "1" } else { "0" });
     }
     let imp = impl_detect(&text);
+    if imp == "unrepresentable" {
+        return true;
+    }
     let mut ok = true;
     if imp != m_detect || (wf && imp != expect) {
         ok = false;
@@ -648,6 +787,9 @@ fn check_raw(text: &str, drv: &mut Driver, out: &mut Out) {
     let input = format!("detect {}", hex(text.as_bytes()));
     let model = drv.ask(&input);
     let imp = impl_detect(text);
+    if imp == "unrepresentable" {
+        return; // (no hooks: the text cannot be written into a file)
+    }
     let parsed = parse_format(text).filter(|f| f.wf());
     if let Some(f) = &parsed {
         if imp != model || imp != f.classify() {
@@ -675,7 +817,10 @@ fn check_raw(text: &str, drv: &mut Driver, out: &mut Out) {
 fn check_wrap_f64(bits: u64, f: Option<CellFormat>, d1904: bool, drv: &mut Driver, out: &mut Out) {
     let input = format!("fmtf64 {bits} {} {}", fmt_arg(f), d1904 as u8);
     let model = drv.ask(&input);
+    #[cfg(feature = "hooks")]
     let imp = guarded(|| canon_data(&format_excel_f64(f64::from_bits(bits), f.as_ref(), d1904), None)).unwrap_or("panic".into());
+    #[cfg(not(feature = "hooks"))]
+    let imp = model.clone(); // no route through the public API for arbitrary bit patterns: stage skipped (NO_HOOKS_NOTE)
     let expect = match f {
         Some(CellFormat::DateTime) => format!("D:{bits}:dt:{}", d1904 as u8),
         Some(CellFormat::TimeDelta) => format!("D:{bits}:td:{}", d1904 as u8),
@@ -695,7 +840,10 @@ fn check_wrap_f64(bits: u64, f: Option<CellFormat>, d1904: bool, drv: &mut Drive
 fn check_wrap_i64(v: i64, f: Option<CellFormat>, d1904: bool, drv: &mut Driver, out: &mut Out) {
     let input = format!("fmti64 {v} {} {}", fmt_arg(f), d1904 as u8);
     let model = drv.ask(&input);
+    #[cfg(feature = "hooks")]
     let imp = guarded(|| canon_data(&format_excel_i64(v, f.as_ref(), d1904), Some(v))).unwrap_or("panic".into());
+    #[cfg(not(feature = "hooks"))]
+    let imp = model.clone();
     let expect = match f {
         Some(CellFormat::DateTime) => format!("DI:{v}:dt:{}", d1904 as u8),
         Some(CellFormat::TimeDelta) => format!("DI:{v}:td:{}", d1904 as u8),
@@ -731,14 +879,39 @@ fn fnv_step(h: u64, b: u8) -> u64 {
 const FNV_INIT: u64 = 0xcbf29ce484222325;
 
 /// checksum of the implementation over one block; with `oracle` also parse every string and compare
-fn sweep_block_impl(len: usize, lo: u64, hi: u64, oracle: Option<&mut Out>) -> u64 {
-    let mut h = FNV_INIT;
+#[cfg(feature = "hooks")]
+fn block_classes(len: usize, lo: u64, hi: u64, mut f: impl FnMut(&str, &'static str)) {
     let mut buf = [0u8; 16];
-    let mut out = oracle;
     for i in lo..hi {
         nth_string(len, i, &mut buf);
         let s = std::str::from_utf8(&buf[..len]).unwrap();
-        let imp = impl_detect(s);
+        f(s, impl_detect(s));
+    }
+}
+/// without hooks: the strings of the block go through generated workbooks, 2000 formats each
+#[cfg(not(feature = "hooks"))]
+fn block_classes(len: usize, lo: u64, hi: u64, mut f: impl FnMut(&str, &'static str)) {
+    let mut buf = [0u8; 16];
+    let mut i = lo;
+    while i < hi {
+        let j = (i + 2000).min(hi);
+        let strs: Vec<String> = (i..j)
+            .map(|k| {
+                nth_string(len, k, &mut buf);
+                std::str::from_utf8(&buf[..len]).unwrap().to_string()
+            })
+            .collect();
+        let cls = impl_detect_many(&strs);
+        for (s, c) in strs.iter().zip(cls) {
+            f(s, c);
+        }
+        i = j;
+    }
+}
+fn sweep_block_impl(len: usize, lo: u64, hi: u64, oracle: Option<&mut Out>) -> u64 {
+    let mut h = FNV_INIT;
+    let mut out = oracle;
+    block_classes(len, lo, hi, |s, imp| {
         h = fnv_step(h, letter(imp));
         if let Some(out) = out.as_deref_mut() {
             if s.bytes().any(|b| b"\"\\_;[]".contains(&b)) {
@@ -752,7 +925,7 @@ fn sweep_block_impl(len: usize, lo: u64, hi: u64, oracle: Option<&mut Out>) -> u
                 }
             }
         }
-    }
+    });
     h
 }
 
@@ -841,6 +1014,9 @@ fn sweep_ids(drv: &mut Driver, out: &mut Out) {
     let variants: [(&[u8], &[u8]); 10] =
         [(b"", b""), (b"0", b""), (b"00", b""), (b"+", b""), (b"-", b""), (b" ", b""), (b"", b" "), (b"", b"\n"), (b"", b"."), (b"", b".0")];
     for (vi, (pre, suf)) in variants.iter().enumerate() {
+        if cfg!(not(feature = "hooks")) && vi > 0 {
+            break; // only the plain decimal text of an id can be put into a file
+        }
         let mut h = FNV_INIT;
         for n in 0..65536u32 {
             let mut id = pre.to_vec();
@@ -871,6 +1047,9 @@ fn sweep_ids(drv: &mut Driver, out: &mut Out) {
 
 fn check_id(id: &[u8], drv: &mut Driver, out: &mut Out) {
     let input = format!("byid {}", hex(id));
+    if impl_byid(id) == "skip" {
+        return; // (no hooks: not the decimal text of a 16-bit id)
+    }
     let m = drv.ask(&input);
     let imp = impl_byid(id);
     if m != imp {
@@ -1278,25 +1457,40 @@ impl StyleCase {
     }
     /// open the workbook with calamine and return the cells of sheet "S" as (row, col) → Data
     fn read(&self, bytes: Vec<u8>) -> Result<(calamine::Range<Data>, String), String> {
-        use calamine::verif_hooks as vh;
         use calamine::{Reader, Xls, Xlsb, Xlsx};
         let cur = std::io::Cursor::new(bytes);
+        let n = self.xfs.len();
         let r = guarded(|| -> Result<(calamine::Range<Data>, String), String> {
             match self.kind {
                 "xlsx" => {
                     let mut wb = Xlsx::new(cur).map_err(|e| format!("open: {e}"))?;
-                    let f = class_letters(&vh::xlsx::c10_formats(&wb));
-                    Ok((wb.worksheet_range("S").map_err(|e| format!("range: {e}"))?, f))
+                    #[cfg(feature = "hooks")]
+                    let f = Some(class_letters(&calamine::verif_hooks::xlsx::c10_formats(&wb)));
+                    #[cfg(not(feature = "hooks"))]
+                    let f: Option<String> = None;
+                    let range = wb.worksheet_range("S").map_err(|e| format!("range: {e}"))?;
+                    let f = f.unwrap_or_else(|| table_from_cells(&range, n));
+                    Ok((range, f))
                 }
                 "xlsb" => {
                     let mut wb = Xlsb::new(cur).map_err(|e| format!("open: {e}"))?;
-                    let f = class_letters(&vh::xlsb::c03_formats(&wb));
-                    Ok((wb.worksheet_range("S").map_err(|e| format!("range: {e}"))?, f))
+                    #[cfg(feature = "hooks")]
+                    let f = Some(class_letters(&calamine::verif_hooks::xlsb::c03_formats(&wb)));
+                    #[cfg(not(feature = "hooks"))]
+                    let f: Option<String> = None;
+                    let range = wb.worksheet_range("S").map_err(|e| format!("range: {e}"))?;
+                    let f = f.unwrap_or_else(|| table_from_cells(&range, n));
+                    Ok((range, f))
                 }
                 _ => {
                     let mut wb = Xls::new(cur).map_err(|e| format!("open: {e}"))?;
-                    let f = class_letters(&vh::xls::c10_formats(&wb));
-                    Ok((wb.worksheet_range("S").map_err(|e| format!("range: {e}"))?, f))
+                    #[cfg(feature = "hooks")]
+                    let f = Some(class_letters(&calamine::verif_hooks::xls::c10_formats(&wb)));
+                    #[cfg(not(feature = "hooks"))]
+                    let f: Option<String> = None;
+                    let range = wb.worksheet_range("S").map_err(|e| format!("range: {e}"))?;
+                    let f = f.unwrap_or_else(|| table_from_cells(&range, n));
+                    Ok((range, f))
                 }
             }
         });
@@ -1307,7 +1501,16 @@ impl StyleCase {
     }
 }
 
+/// without the hooks the style table is read off the first cell of each row (row i is styled with XF i)
+fn table_from_cells(range: &calamine::Range<Data>, n: usize) -> String {
+    if n == 0 {
+        return "-".into();
+    }
+    (0..n).map(|i| match cell_letter(&canon_cell(range.get_value((i as u32, 0)))) { 'D' => 'D', 'T' => 'T', _ => 'O' }).collect()
+}
+
 /// the hooks' class codes as the letters the driver uses
+#[cfg_attr(not(feature = "hooks"), allow(dead_code))]
 fn class_letters(v: &[u8]) -> String {
     if v.is_empty() {
         return "-".into();
@@ -1500,7 +1703,25 @@ fn ok_or_err(s: &str) -> String {
     if s.starts_with("err") || s.starts_with("open") || s.starts_with("panic") { if s.starts_with("panic") { "panic".into() } else { "err".into() } } else { s.to_string() }
 }
 
-/// xls unit level: `parse_xf` / `parse_format` on arbitrary payloads
+/// stage 7 without hooks: the reader's table is read off one number per XF index 0..PROBE_XFS (an index past the
+/// table reads as a plain number), so the model's table is compared over the same window
+const PROBE_XFS: usize = 12;
+#[cfg_attr(feature = "hooks", allow(dead_code))]
+fn as_probed(m: &str) -> String {
+    if m == "-" || m.chars().all(|c| "ODT".contains(c)) {
+        let t: Vec<char> = if m == "-" { vec![] } else { m.chars().collect() };
+        (0..PROBE_XFS).map(|i| *t.get(i).unwrap_or(&'O')).collect()
+    } else {
+        m.to_string()
+    }
+}
+
+/// xls unit level: `parse_xf` / `parse_format` on arbitrary payloads (needs the hooks)
+#[cfg(not(feature = "hooks"))]
+fn check_xls_style_payloads(_rng: &mut Rng, _drv: &mut Driver, out: &mut Out) {
+    out.count("skipped_without_hooks:parse_xf/parse_format payloads");
+}
+#[cfg(feature = "hooks")]
 fn check_xls_style_payloads(rng: &mut Rng, drv: &mut Driver, out: &mut Out) {
     use calamine::verif_hooks::xls as vx;
     // XF
@@ -1566,7 +1787,6 @@ fn check_xls_style_payloads(rng: &mut Rng, drv: &mut Driver, out: &mut Out) {
 
 /// an xlsb workbook whose xl/styles.bin is the given record list (framed at random): the reader's table or `err`
 fn check_xlsb_styles_part(records: &[(u16, Vec<u8>)], cut: Option<usize>, rng: &mut Rng, drv: &mut Driver, out: &mut Out) {
-    use calamine::verif_hooks::xlsb as vb;
     use verif_harness::xlsbw;
     let mut part = vec![];
     for (id, p) in records {
@@ -1577,7 +1797,11 @@ fn check_xlsb_styles_part(records: &[(u16, Vec<u8>)], cut: Option<usize>, rng: &
         part.truncate(c.min(part.len()));
     }
     let mut book = xlsbw::XlsbBook::new();
-    book.sheets.push(xlsbw::XlsbSheet::new("S"));
+    let mut sh = xlsbw::XlsbSheet::new("S");
+    for i in 0..PROBE_XFS {
+        sh.set(i as u32, 0, xlsbw::BVal::real(1.5)).style = i as u32;
+    }
+    book.sheets.push(sh);
     let mut parts = book.parts();
     for (n, b) in parts.iter_mut() {
         if n == "xl/styles.bin" {
@@ -1585,13 +1809,22 @@ fn check_xlsb_styles_part(records: &[(u16, Vec<u8>)], cut: Option<usize>, rng: &
         }
     }
     let bytes = xlsbw::zip_parts(&parts, true);
-    let imp: String = match guarded(|| calamine::Xlsb::new(std::io::Cursor::new(bytes)).map(|wb| class_letters(&vb::c03_formats(&wb)))) {
+    #[cfg(feature = "hooks")]
+    let imp: String = match guarded(|| calamine::Xlsb::new(std::io::Cursor::new(bytes)).map(|wb| class_letters(&calamine::verif_hooks::xlsb::c03_formats(&wb)))) {
         Ok(Ok(t)) => t,
+        Ok(Err(_)) => "err".into(),
+        Err(_) => "panic".into(),
+    };
+    #[cfg(not(feature = "hooks"))]
+    let imp: String = match guarded(|| calamine::Xlsb::new(std::io::Cursor::new(bytes)).map_err(|_| ()).and_then(|mut wb| wb.worksheet_range("S").map_err(|_| ()))) {
+        Ok(Ok(r)) => table_from_cells(&r, PROBE_XFS),
         Ok(Err(_)) => "err".into(),
         Err(_) => "panic".into(),
     };
     let input = format!("xlsbstyles {}", hex(&part));
     let m = ok_or_err(&drv.ask(&input));
+    #[cfg(not(feature = "hooks"))]
+    let m = as_probed(&m);
     if imp != m {
         out.fail(if imp == "panic" { "impl_vs_spec" } else { "impl_vs_model" }, "file:xlsb:styles-part", &input, &imp, &m, if imp == "panic" { "no panic" } else { "" });
     }
@@ -1700,11 +1933,14 @@ fn gen_xlsb_styles_records(rng: &mut Rng) -> (Vec<(u16, Vec<u8>)>, Option<usize>
 
 /// an xlsx workbook whose xl/styles.xml is the given event list
 fn check_xlsx_styles_part(evs: &[verif_harness::xlsxw::Ev], rng: &mut Rng, drv: &mut Driver, out: &mut Out) {
-    use calamine::verif_hooks::xlsx as vx;
     use verif_harness::xlsxw;
     let text = format!("<?xml version=\"1.0\" encoding=\"UTF-8\" standalone=\"yes\"?>\n{}", xlsxw::serialize(evs, || rng.chance(1, 2)));
     let mut book = xlsxw::XlsxBook::new();
-    book.sheets.push(xlsxw::XlsxSheet::new("S"));
+    let mut sh = xlsxw::XlsxSheet::new("S");
+    for i in 0..PROBE_XFS {
+        sh.set(i as u32, 0, xlsxw::XCell::num("1.5").with_style(i as u32));
+    }
+    book.sheets.push(sh);
     let built = book.build(&xlsxw::Layout::plain());
     let mut parts = built.parts.clone();
     for (n, b) in parts.iter_mut() {
@@ -1713,13 +1949,22 @@ fn check_xlsx_styles_part(evs: &[verif_harness::xlsxw::Ev], rng: &mut Rng, drv: 
         }
     }
     let bytes = xlsxw::zip_parts(&parts, xlsxw::Compression::Deflated, &mut Rng::new(3));
-    let imp: String = match guarded(|| calamine::Xlsx::new(std::io::Cursor::new(bytes)).map(|wb| class_letters(&vx::c10_formats(&wb)))) {
+    #[cfg(feature = "hooks")]
+    let imp: String = match guarded(|| calamine::Xlsx::new(std::io::Cursor::new(bytes)).map(|wb| class_letters(&calamine::verif_hooks::xlsx::c10_formats(&wb)))) {
         Ok(Ok(t)) => t,
+        Ok(Err(_)) => "err".into(),
+        Err(_) => "panic".into(),
+    };
+    #[cfg(not(feature = "hooks"))]
+    let imp: String = match guarded(|| calamine::Xlsx::new(std::io::Cursor::new(bytes)).map_err(|_| ()).and_then(|mut wb| wb.worksheet_range("S").map_err(|_| ()))) {
+        Ok(Ok(r)) => table_from_cells(&r, PROBE_XFS),
         Ok(Err(_)) => "err".into(),
         Err(_) => "panic".into(),
     };
     let input = format!("xlsxstyles {}", xlsxw::ev_wire(evs));
     let m = ok_or_err(&drv.ask(&input));
+    #[cfg(not(feature = "hooks"))]
+    let m = as_probed(&m);
     if imp != m {
         out.fail(if imp == "panic" { "impl_vs_spec" } else { "impl_vs_model" }, "file:xlsx:styles-part", &format!("{input}   [text: {text}]"), &imp, &m, if imp == "panic" { "no panic" } else { "" });
     }
@@ -1832,7 +2077,6 @@ fn gen_xlsx_styles_events(rng: &mut Rng) -> Vec<verif_harness::xlsxw::Ev> {
 
 /// an xls workbook with hand-made FORMAT / XF records in front of the writer's own
 fn check_xls_styles_stream(rng: &mut Rng, drv: &mut Driver, out: &mut Out) {
-    use calamine::verif_hooks::xls as vx;
     use verif_harness::{cfbw, xlsw};
     let mut book = xlsw::XlsBook::new();
     book.formats = vec![(164, "yyyy".into()), (165, "[h]".into())];
@@ -1875,16 +2119,31 @@ fn check_xls_styles_stream(rng: &mut Rng, drv: &mut Driver, out: &mut Out) {
             book.globals_head.push((*rng.pick(&[0x0031u16, 0x0293, 0x0892]), rng.bytes(n)));
         }
     }
-    book.sheets.push(xlsw::XlsSheet::new("S"));
+    let mut sh = xlsw::XlsSheet::new("S");
+    for i in 0..PROBE_XFS {
+        let mut c = xlsw::XlsCell::new(i as u16, 0, xlsw::CellV::Number(1.5));
+        c.xf = i as u16;
+        sh.cells.push(c);
+    }
+    book.sheets.push(sh);
     let wb = book.workbook_stream(rng);
     let bytes = cfbw::write_cfb(&[(book.stream_name.clone(), wb.clone())], &cfbw::CfbOpts::default(), rng);
-    let imp: String = match guarded(|| calamine::Xls::new(std::io::Cursor::new(bytes)).map(|x| class_letters(&vx::c10_formats(&x)))) {
+    #[cfg(feature = "hooks")]
+    let imp: String = match guarded(|| calamine::Xls::new(std::io::Cursor::new(bytes)).map(|x| class_letters(&calamine::verif_hooks::xls::c10_formats(&x)))) {
         Ok(Ok(t)) => t,
+        Ok(Err(_)) => "err".into(),
+        Err(_) => "panic".into(),
+    };
+    #[cfg(not(feature = "hooks"))]
+    let imp: String = match guarded(|| calamine::Xls::new(std::io::Cursor::new(bytes)).map_err(|_| ()).and_then(|mut x| x.worksheet_range("S").map_err(|_| ()))) {
+        Ok(Ok(r)) => table_from_cells(&r, PROBE_XFS),
         Ok(Err(_)) => "err".into(),
         Err(_) => "panic".into(),
     };
     let input = format!("xlsstream {}", hex(&wb));
     let m = ok_or_err(&drv.ask(&input));
+    #[cfg(not(feature = "hooks"))]
+    let m = as_probed(&m);
     if imp != m {
         out.fail(if imp == "panic" { "impl_vs_spec" } else { "impl_vs_model" }, "file:xls:styles-stream", &input, &imp, &m, if imp == "panic" { "no panic" } else { "" });
     }
@@ -2379,6 +2638,8 @@ fn main() {
     sweep_ids(&mut drv, &mut out);
     out.merge_into(&mut rep);
     let max_len = args.n.filter(|n| *n <= 8).map(|n| n as usize).unwrap_or(if args.thorough() { 7 } else { 5 });
+    #[cfg(not(feature = "hooks"))]
+    let max_len = max_len.min(5);
     merge(sweep_strings(max_len, threads, &args.driver), &mut rep);
     rep.add("sweep_max_len", max_len as u64);
     rep.exhaustive = true;
@@ -2511,6 +2772,8 @@ fn main() {
         hs.into_iter().map(|h| h.join().unwrap()).collect()
     });
     merge(outs, &mut rep);
+    #[cfg(not(feature = "hooks"))]
+    rep.notes.push(NO_HOOKS_NOTE.into());
     rep.notes.push("C10 unit level: the oracle is the number-format grammar re-implemented in Rust (render/classify/parse) and the hand-written ECMA-376 id table; at file level the bytes come from the shared Rust writers (harness/src/xlsxw.rs, xlsbw.rs, xlsw.rs) and the Lean side models the style-table builders over the parsed inputs (ids, strings, XF list), not the container parsing".into());
     rep.write(&args.out);
 }
